@@ -43,6 +43,9 @@ type c04Scenario struct {
 	txn     []bool     // thread runs its ops inside one session transaction (WithTransaction)
 	ticker  bool       // an extra thread grants one tick to the real expiry loop
 	bound   int        // extra preemption bound relative to the tier default (negative = less)
+	// expect, if set, is an absolute oracle on top of the serial replay (which runs on lungo itself and would share a
+	// purely sequential defect): it returns what is wrong with the results and the final contents, or ""
+	expect func(calls []*c04Call, final string) string
 }
 
 func c04Find(w *world.World, ctx context.Context, filter bson.D) string {
@@ -149,6 +152,54 @@ func c04Scenarios() []*c04Scenario {
 			return obsUpdate(res, err)
 		}}
 	}
+	// a session transaction that writes below array elements and is aborted: nobody ever sees anything of it
+	abortedNested := func() *c04Op {
+		return &c04Op{name: "session{$inc items.0.qty, grid.0.1; $set items.1.tag}+abort", write: true, owns: func(ev string) bool { return false }, run: func(w *world.World, ctx context.Context) string {
+			sess, err := w.Client.StartSession()
+			if err != nil {
+				return "err"
+			}
+			defer sess.EndSession(ctx)
+			if err := sess.StartTransaction(); err != nil {
+				return "err"
+			}
+			var res string
+			_ = lungo.WithSession(ctx, sess, func(sc lungo.ISessionContext) error {
+				r1, e1 := w.C("d", "c").UpdateOne(sc, bD("_id", int32(1)), bD("$inc", bD("items.0.qty", int32(1), "grid.0.1", int32(1)), "$set", bD("items.1.tag", "t")))
+				res = obsUpdate(r1, e1)
+				return nil
+			})
+			return res + " abort=" + world.ErrClass(sess.AbortTransaction(ctx))
+		}}
+	}
+	nested := bD("_id", int32(1), "n", int32(0), "items", bson.A{bD("qty", int32(5)), bD("qty", int32(7))}, "grid", bson.A{bson.A{int32(1), int32(2)}})
+	sortedRead := func() *c04Op {
+		return &c04Op{name: "Find({}).sort({p:-1})", run: func(w *world.World, ctx context.Context) string {
+			cur, err := w.C("d", "c").Find(ctx, bD(), options.Find().SetSort(bD("p", int32(-1))))
+			if err != nil {
+				return "err"
+			}
+			var docs []bson.D
+			if err := cur.All(ctx, &docs); err != nil {
+				return "err"
+			}
+			var ids []string
+			for _, d := range docs {
+				ids = append(ids, fmt.Sprint(d[0].Value))
+			}
+			if got := strings.Join(ids, ","); got != "2,3,1" {
+				return "the sorted read returned " + got + ", the order by p descending is 2,3,1"
+			}
+			// the result of the call is a plain read after the sorted one (the oracle of reads compares with whole states)
+			return c04Find(w, ctx, nil)
+		}}
+	}
+	incID := func(tag string, id int32) *c04Op {
+		return &c04Op{name: fmt.Sprintf("UpdateOne({_id:%d}, $inc n)", id), write: true, owns: tagged(tag), run: func(w *world.World, ctx context.Context) string {
+			res, err := w.C("d", "c").UpdateOne(ctx, bD("_id", id), bD("$inc", bD("n", int32(1)), "$set", bD("last", "mk-"+tag)))
+			return obsUpdate(res, err)
+		}}
+	}
 	d1 := bD("_id", int32(1), "n", int32(0))
 	d2 := bD("_id", int32(2), "n", int32(0))
 	ttl := func(w *world.World) {
@@ -170,6 +221,39 @@ func c04Scenarios() []*c04Scenario {
 		{name: "S11 insert vs DeleteMany vs count", setup: seed(d1, d2), threads: [][]*c04Op{{ins("i", 5)}, {delMany()}, {count()}}, bound: -1},
 		{name: "S12 transaction (two inserts) vs UpdateMany vs reader", setup: seed(d1), threads: [][]*c04Op{{ins("a", 2), ins("b", 3)}, {updMany("u")}, {read()}}, txn: []bool{true, false, false}, bound: -1},
 		{name: "S13 transaction (insert, then a delete matching nothing) vs reader", setup: seed(d1), threads: [][]*c04Op{{ins("a", 2), delNone()}, {read()}}, txn: []bool{true, false}},
+		{name: "S14 aborted transaction writing below array elements vs reader reading twice", setup: seed(nested), threads: [][]*c04Op{{abortedNested()}, {read(), read()}},
+			expect: func(calls []*c04Call, final string) string {
+				want := J(nested)
+				for _, c := range calls {
+					if c.op.name == "Find({})" && c.result != want {
+						return "a reader saw " + c.result + " although the only writer aborted (the document is " + want + ")"
+					}
+					if strings.HasPrefix(c.op.name, "session{") && c.result != "ok matched=1 modified=1 upserted=0 id=- abort=ok" {
+						return "the update inside the transaction returned " + c.result
+					}
+				}
+				if final != want {
+					return "after the abort the collection holds " + final + ", before it held " + want
+				}
+				return ""
+			}},
+		{name: "S15 sorted reads vs updates by _id", setup: seed(bD("_id", int32(1), "p", int32(1), "n", int32(0)), bD("_id", int32(2), "p", int32(3), "n", int32(0)), bD("_id", int32(3), "p", int32(2), "n", int32(0))),
+			threads: [][]*c04Op{{sortedRead(), sortedRead()}, {incID("a", 2), incID("b", 3)}}, bound: -1,
+			expect: func(calls []*c04Call, final string) string {
+				for _, c := range calls {
+					if strings.HasPrefix(c.op.name, "Find({}).sort") && strings.HasPrefix(c.result, "the sorted read") {
+						return c.result
+					}
+					if strings.HasPrefix(c.op.name, "UpdateOne({_id:") && c.result != "ok matched=1 modified=1 upserted=0 id=-" {
+						return c.op.name + " returned " + c.result
+					}
+				}
+				want := J(bD("_id", int32(1), "p", int32(1), "n", int32(0))) + "|" + J(bD("_id", int32(2), "p", int32(3), "n", int32(1), "last", "mk-a")) + "|" + J(bD("_id", int32(3), "p", int32(2), "n", int32(1), "last", "mk-b"))
+				if final != want {
+					return "the collection ends as " + final + ", expected " + want
+				}
+				return ""
+			}},
 		{name: "S9 two threads sharing one session transaction", setup: seed(d1), threads: [][]*c04Op{{ins("x", 2)}, {ins("y", 3)}}, txn: []bool{true, true}},
 	}
 }
@@ -415,10 +499,16 @@ func init() {
 func c04Check(r violator, sc *c04Scenario, res *sched.Result, calls []*c04Call, oplog []string, final string, outcomes map[string]bool) {
 	rep := schedReplay(res)
 	rep["scenario"] = sc.name
-	tag := sc.name[:2]
+	tag := strings.Fields(sc.name)[0]
 	if cls, what := e3Problem(res); cls != "" {
 		r.Violation(cls+":"+tag, sc.name+": "+what+" schedule "+res.Schedule(), rep)
 		return
+	}
+	if sc.expect != nil {
+		if msg := sc.expect(calls, final); msg != "" {
+			r.Violation("absolute-expectation:"+tag, sc.name+": "+msg+"; schedule "+res.Schedule(), rep)
+			return
+		}
 	}
 	pos := map[*c04Call]int{}
 	var evented, eventless []*c04Call
